@@ -20,9 +20,11 @@ DECLINED = ["linearizability and FIFO order of concurrent histories as such",
 ASSUMPTIONS = ["user-defined pools are out of scope (C14)",
                "pthread_mutex/pthread_cond behave as specified by POSIX"]
 RULES_DOC = dict(common.SHARED_DOC)
+RULES_DOC["X7"] = common.X7_DOC
 RULES_DOC["X4"] = common.X4_DOC
 RULES_DOC["X5"] = common.X5_DOC
 RULES_DOC["R7"] = "batch push (ABT_pool_push_threads[_ex]): handles are compacted into the unit buffer with one counter -- every store into the buffer is indexed by the counter that is incremented with it, and ABTI_pool_push_many receives that buffer and that counter (NULL handles are skipped without leaving holes or pushing unwritten slots)"
+RULES_DOC["R9"] = "inserting a unit links it with BOTH neighbours in BOTH directions (tail->next, head->prev, unit->prev, unit->next) and moves exactly the queue end it is pushed to; the first unit of an empty queue points at itself and becomes head and tail: a tail pop or a remove follows the backward links"
 RULES_DOC["R8"] = "unlinking a unit from a queue that keeps other units rewires BOTH neighbours (prev->next and next->prev): the list is circular, so the tail's forward link is part of the structure a later tail pop or remove reads"
 RULES_DOC.update({
     "R1": "queue mutators run under data::mutex (or in a PRIV-only function); every exit has the lock released",
@@ -704,7 +706,62 @@ def rule_R8(P, rep):
     rep.need(n >= 3, "only %d unlinking paths found" % n)
 
 
+def rule_R9(P, rep):
+    n = 0
+    for fn, end in (("thread_queue_push_head", "p_head"), ("thread_queue_push_tail", "p_tail")):
+        F = P.fn(fn, "src/pool/thread_queue.h")
+        q = [p["n"] for p in F.params if p["t"].replace(" ", "") == "thread_queue_t*"]
+        u = [p["n"] for p in F.params if p["t"].replace(" ", "") == "ABTI_thread*"]
+        rep.need(len(q) == 1 and len(u) == 1, "%s: parameters %s" % (fn, F.params))
+        Q, U = q[0], u[0]
+        H, T = "%s->p_head" % Q, "%s->p_tail" % Q
+        sel = seq.Sel(fields={"ABTI_thread::p_next", "ABTI_thread::p_prev", "thread_queue_t::num_threads", "thread_queue_t::p_head",
+                              "thread_queue_t::p_tail"}, canon=True, locks=False)
+        for toks, kind, rv, rtxt in seq.sequences(F, sel, max_len=40):
+            if kind != "ret":
+                continue
+            sts = [t for t in toks if t[0] == "st"]
+            cnt = [t for t in sts if t[1].endswith("::num_threads")]
+            if not cnt:
+                continue
+            grow = any(t[2] in ("++", "+=") or str(t[3]).endswith("+ 1") for t in cnt)
+            pairs = {}
+            order_bad = []
+            moved = set()
+            for t in sts:
+                nd = F.nodes[t[-1]]
+                if "lh" not in nd or nd.get("rh") is None:
+                    continue
+                lhs, rhs = canon.rooted(F, nd["lh"]), canon.rooted(F, nd["rh"])
+                if t[1].startswith("thread_queue_t::p_"):
+                    pairs[lhs] = rhs
+                    moved.add(t[1].split("::")[1])
+                    continue
+                if not t[1].startswith("ABTI_thread::"):
+                    continue
+                pairs[lhs] = rhs
+                # a link store that re-reads a queue end after that end was already moved to the new unit
+                for j in F.descendants(t[-1]):
+                    jn = F.nodes[j]
+                    if jn.get("k") == "mem" and jn.get("r") == "thread_queue_t" and jn.get("f") in moved:
+                        order_bad.append("%s re-read after it was moved" % jn["f"])
+            if grow:
+                want = {T + "->p_next": U, H + "->p_prev": U, U + "->p_prev": T, U + "->p_next": H, "%s->%s" % (Q, end): U}
+            else:
+                want = {U + "->p_prev": U, U + "->p_next": U, H: U, T: U}
+            other = "p_tail" if end == "p_head" else "p_head"
+            extra = grow and ("%s->%s" % (Q, other)) in pairs
+            ok = all(pairs.get(k) == v for k, v in want.items()) and not order_bad and not extra
+            n += 1
+            rep.ob("R9", "%s (%s queue): the new unit is linked with both neighbours in both directions and becomes the %s" %
+                   (fn, "non-empty" if grow else "empty", end[2:]), ok,
+                   "links written %s, expected %s%s" % (sorted(pairs.items()), sorted(want.items()), "; " + "; ".join(order_bad) if order_bad else ""),
+                   loc="%s:%d" % (F.file, F.line), site="%s/link/%s" % (fn, "grow" if grow else "first"))
+    rep.need(n >= 4, "only %d insertion paths found" % n)
+
+
 def run(P, rep, tier):
+    common.rule_X7(P, rep, records=('data',))
     common.rule_widths(P, rep, [('thread_queue_t', 'num_threads')])
     common.rule_X4(P, rep)
     common.run_shared(P, rep)
@@ -715,3 +772,4 @@ def run(P, rep, tier):
     rule_R6(P, rep)
     rule_R7(P, rep)
     rule_R8(P, rep)
+    rule_R9(P, rep)
